@@ -1130,7 +1130,7 @@ fn run(f: &[&str]) -> Option<String> {
             let mut out = vec![];
             for m in MESSAGE_TYPES.iter() {
                 let d = enc_avp_into(&[], &AVP::MessageType(*m)).data?;
-                out.push(format!("{:?}={}", m, ((d[8] as u16) << 8) | d[9] as u16));
+                out.push(format!("{:?}={}", m, ((d[6] as u16) << 8) | d[7] as u16));
             }
             for e in ERROR_TYPES.iter() {
                 let v: u16 = (*e).into();
